@@ -8,7 +8,8 @@ import { f2 } from "./spec2.mjs";
 import { member, IN, OUT, DC, vname, defectModels } from "./ref.mjs";
 import { normaliseProgram } from "./normalise.mjs";
 import { universeFor, build, toSrc, pool as valuePool } from "./universe.mjs";
-import { CompilePool } from "./compile.mjs";
+import { CompilePool, classify, DEFAULT_SETTINGS } from "./compile.mjs";
+import { loadProgram } from "./runtime.mjs";
 
 export function familyPrograms() {
   const progs = [];
@@ -26,6 +27,25 @@ export function familyPrograms() {
     progs.push(...packInline(f4(), 40, "F4-inline"));
   }
   return progs;
+}
+
+// constant expressions under typeof (object and array spreads in every order, property access, as const)
+function typeofPrograms() {
+  const P = (decls, parsers) => `${decls}\nexport const Parsers = parse.buildParsers<{ ${parsers} }>();\n`;
+  const D = 'const d = { mode: "light", size: 1 } as const;\nconst o = { mode: "dark" } as const;\nconst e = { extra: true, size: 2 } as const;\n';
+  const out = [];
+  const obj = (name, expr, members, non) => out.push({ name, text: P(D + `const c = ${expr} as const;`, "A: typeof c"), expect: { A: [...members.map((m) => [m, true]), ...non.map((m) => [m, false])] } });
+  obj("spread-two", "{ ...d, ...o }", ['({"mode": "dark", "size": 1})'], ['({"mode": "light", "size": 1})']);
+  obj("spread-two-reversed", "{ ...o, ...d }", ['({"mode": "light", "size": 1})'], ['({"mode": "dark", "size": 1})']);
+  obj("spread-three", "{ ...d, ...o, ...e }", ['({"mode": "dark", "size": 2, "extra": true})'], ['({"mode": "dark", "size": 1, "extra": true})', '({"mode": "light", "size": 2, "extra": true})']);
+  obj("spread-then-explicit", '{ ...d, mode: "x" }', ['({"mode": "x", "size": 1})'], ['({"mode": "light", "size": 1})']);
+  obj("explicit-then-spread", '{ mode: "x", ...d }', ['({"mode": "light", "size": 1})'], ['({"mode": "x", "size": 1})']);
+  obj("explicit-between-spreads", '{ ...d, mode: "x", ...o }', ['({"mode": "dark", "size": 1})'], ['({"mode": "x", "size": 1})']);
+  obj("duplicate-explicit-keys", '{ ...d, size: 5, ...e, size: 7 }', ['({"mode": "light", "size": 7, "extra": true})'], ['({"mode": "light", "size": 2, "extra": true})', '({"mode": "light", "size": 5, "extra": true})']);
+  out.push({ name: "array-spreads", text: P("const a = [1, 2] as const;\nconst b = [3] as const;\nconst c = [...a, ...b, 4] as const;\nconst r = [...b, ...a] as const;", "A: typeof c, B: typeof r"), expect: { A: [["[1, 2, 3, 4]", true], ["[3, 1, 2, 4]", false], ["[1, 2, 3]", false]], B: [["[3, 1, 2]", true], ["[1, 2, 3]", false]] } });
+  out.push({ name: "member-of-spread", text: P(D + "const c = { ...d, ...o } as const;", "A: typeof c.mode, B: typeof c.size"), expect: { A: [['"dark"', true], ['"light"', false]], B: [["1", true], ["2", false]] } });
+  out.push({ name: "nested-spread", text: P(D + "const c = { inner: { ...d, ...o }, ...e } as const;", "A: typeof c"), expect: { A: [['({"inner": {"mode": "dark", "size": 1}, "extra": true, "size": 2})', true], ['({"inner": {"mode": "light", "size": 1}, "extra": true, "size": 2})', false]] } });
+  return out;
 }
 
 export async function run() {
@@ -103,6 +123,40 @@ export async function run() {
   };
   await sweepPrograms(progs, handlers);
   if (retry.length) await sweepPrograms(retry.splice(0), handlers);
+  // typeof of constant expressions: programs whose meaning is fixed by JavaScript evaluation order (the reference model
+  // has no expression evaluator, so each parser comes with generator-known members and non-members)
+  {
+    const pool_ = new CompilePool({ size: 2 });
+    try {
+      for (const tp of typeofPrograms()) {
+        const r = classify(await pool_.request({ files: { "entry.ts": tp.text }, settings: DEFAULT_SETTINGS }));
+        if (r.kind !== "code") {
+          stats.compileFailures++;
+          continue;
+        }
+        let parsers;
+        try {
+          parsers = loadProgram(r.code).parsers;
+        } catch {
+          continue; // C04's matter
+        }
+        for (const [n, cases] of Object.entries(tp.expect))
+          for (const [src, want] of cases) {
+            stats.evaluations++;
+            stats.typeofCases = (stats.typeofCases ?? 0) + 1;
+            let got;
+            try {
+              got = parsers[n].validate(new Function("return (" + src + ")")());
+            } catch (e) {
+              got = "throw " + e.message;
+            }
+            if (got !== want) rep.violation(`C01 typeof expression : ${tp.name}.${n} : beff=${got} expected=${want}`, `${tp.name}: validator of \`${n}\` answers ${got} on ${src}, JavaScript evaluation of the constant says ${want}`, { engine: "E-src", program: tp.text, parser: n, value: src });
+          }
+      }
+    } finally {
+      pool_.close();
+    }
+  }
   const expectedClasses = ["TypeofRuntype", "AnyRuntype", "NullishRuntype", "NeverRuntype", "ConstRuntype", "RegexRuntype", "DateRuntype", "BigIntRuntype", "StringWithFormatRuntype", "NumberWithFormatRuntype", "AnyOfConstsRuntype", "TupleRuntype", "AllOfRuntype", "AnyOfRuntype", "ArrayRuntype", "AnyOfDiscriminatedRuntype", "ObjectRuntype", "OptionalFieldRuntype", "RefRuntype", "TypedArrayRuntype", "MapRuntype", "SetRuntype"];
   const missing = expectedClasses.filter((c) => !classes.has(c));
   if (missing.length > 0) rep.machineryError("vacuous: runtime classes never instantiated: " + missing.join(","));
